@@ -100,6 +100,15 @@ func main() {
 		}
 		return
 	}
+	if *dumpfn == "STICKY" {
+		w := loadWorld(*repo)
+		for _, fn := range w.RepoFuncs("compose", "schema", "internal", "flow", "callbacks", "components", "utils") {
+			for _, sf := range stickyFlagsTestedInLoop(fn) {
+				fmt.Printf("%s | %s | flag %s | tested at %s\n", w.fname(origin(fn)), sf.loop.what, sf.phi.Comment, w.pos(sf.test.Cond.Pos()))
+			}
+		}
+		return
+	}
 	if *dumpfn == "LIST" {
 		w := loadWorld(*repo)
 		for _, f := range w.RepoFuncs() {
